@@ -211,3 +211,6 @@ Proof.
   - apply read_quoted; assumption.
 Qed.
 
+
+Lemma mem_str_In_false : forall s l, mem_str s l = false -> ~ In s l.
+Proof. intros s l H Hin. apply mem_str_In in Hin. congruence. Qed.
